@@ -184,6 +184,10 @@ func (g *Gen) Blocks(max int) []Blk {
 			dec, _ := mh.Decode(h)
 			ih, _ := mh.Sum(dec.Digest, mh.IDENTITY, -1)
 			out = append(out, Blk{cid.NewCidV1(cid.Raw, h), d}, Blk{cid.NewCidV1(cid.Raw, ih), dec.Digest})
+		case k == 4 && g.pick(3) == 0:
+			// the empty identity CID (bafkqaaa): zero-length digest, zero-length block
+			ih, _ := mh.Sum(nil, mh.IDENTITY, -1)
+			out = append(out, Blk{cid.NewCidV1(cid.Raw, ih), []byte{}})
 		case k == 3 && g.pick(2) == 0:
 			// a long CID: identity multihash with a digest past the sizes parsers like to assume (128, 256)
 			d := g.bytes([]int{125, 127, 128, 129, 200, 255, 256, 300}[g.pick(8)])
